@@ -412,6 +412,20 @@ func (s *sharedEntryAttributes) deletesWholeListEntry() bool {
 	return true
 }
 
+// hasAllKeyLeafs reports if s is the last key level of a list entry and holds a child for every key leaf.
+func (s *sharedEntryAttributes) hasAllKeyLeafs() bool {
+	if s.schema != nil {
+		return false
+	}
+	ancestor, _ := s.GetFirstAncestorWithSchema()
+	for _, n := range ancestor.GetSchemaKeys() {
+		if _, exists := s.childs.GetEntry(n); !exists {
+			return false
+		}
+	}
+	return true
+}
+
 // canDelete checks if the entry can be Deleted.
 // This is e.g. to cover e.g. defaults and running. They can be deleted, but should not, they are basically implicitly existing.
 // In caomparison to
@@ -794,6 +808,11 @@ func (s *sharedEntryAttributes) tryLoading(ctx context.Context, path []string) (
 // GetHighestPrecedence goes through the whole branch and returns the new and updated cache.Updates.
 // These are the updated that will be send to the device.
 func (s *sharedEntryAttributes) GetHighestPrecedence(result LeafVariantSlice, onlyNewOrUpdated bool) LeafVariantSlice {
+	// a list entry that is deleted as a whole (all its key leafs are
+	// present and to be deleted) does not contribute any values
+	if s.deletesWholeListEntry() && s.hasAllKeyLeafs() {
+		return result
+	}
 	// get the highes precedence LeafeVariant and add it to the list
 	lv := s.leafVariants.GetHighestPrecedence(onlyNewOrUpdated, false)
 	if lv != nil {
